@@ -96,7 +96,7 @@ CHECKS = {
         "jobs": [SEQX_TOPIC, TOPICX],
         "level": "model_checking",
         "level_text": "every history up to the depth over subscribe/unsubscribe (2 topics), send, try_recv/recv_timeout, clone/close/drop/convert of ≤2 sender and ≤2 receiver handles, mailbox capacity 1–2, against a routing model (subscription relation, bounded drop-newest mailboxes, live sender-handle count); every schedule (preemption bound 2 quick / 3 thorough) of a publisher thread racing 1–2 threads that subscribe, unsubscribe, read, clone, close or drop receivers / drop or close the sender, each history checked for linearizability against the same routing model",
-        "level_note": "seqx-topic: single-thread histories. topicx: real threads under the controlled scheduler; scheduling points are the cfg-only points of hook H8 between the steps of publish/subscribe/unsubscribe/close/clone on shared structures (map lookup, subscriber-list snapshot, each mailbox delivery, list modification, receiver-count update) — code between two points (papaya map operations, left-right modify, the parking_lot-protected mailbox) is an atomic block, so interleavings inside those primitives are not explored",
+        "level_note": "seqx-topic: single-thread histories. topicx: real threads under the controlled scheduler; scheduling points are the cfg-only points of hooks H8 (between the steps of publish/subscribe/unsubscribe/close/clone) and H11 (in front of every papaya map operation, every left-right enter/modify and every mailbox deliver/disconnect/try_recv, i.e. at the primitives, so code added later is covered too) — each such primitive operation is itself an atomic block: interleavings inside papaya, left-right and the parking_lot-protected mailbox are not explored",
         "technique": "stateless exhaustive DFS over operation histories of the real topic channel vs reference routing model; stateless exhaustive DFS over thread schedules under a controlled scheduler with iterative preemption bounding, brute-force linearizability check per schedule",
         "design_ref": "§4 C08, §12.6",
         "rule": "seqx-topic: all histories up to depth d over the alphabet above, each re-executed on a fresh channel and compared step by step with the routing model; non-trivial = at least one message received. topicx: all schedules with ≤ bound preemptions of the programs listed in the scenarios, each re-executed on a fresh channel, followed by a sequential epilogue (drop the sender, drain every open receiver); non-trivial = operations of two threads overlap",
@@ -173,4 +173,4 @@ CHECKS = {
 # properties not (yet) claimed: id -> reason (kept current; see DESIGN.md)
 NOT_APPLICABLE = {}  # every listed property is claimed; a property dropped from CHECKS must be given a reason here
 
-HOOK_COMMITS = ["750f6f3", "65ea752", "ed0735a", "ff174a5", "d8f7bf2", "82203ff", "b03adbd", "7e9a18f", "49628c7", "1549af9", "2337661", "a83b00a"]
+HOOK_COMMITS = ["750f6f3", "65ea752", "ed0735a", "ff174a5", "d8f7bf2", "82203ff", "b03adbd", "7e9a18f", "49628c7", "1549af9", "2337661", "a83b00a", "4beb1d1"]
